@@ -1,0 +1,1 @@
+//! Hooks owned by property C12 (feature `verif-hooks`).
